@@ -65,6 +65,10 @@ type ViolationReport struct {
 	MinDraws   int      `json:"min_draws"`
 	Candidates int      `json:"minimise_candidates"`
 	Confirmed  bool     `json:"replay_confirmed"`
+	// where in the shard's run sequence the violation was found (history replay: a run whose
+	// outcome depends on state that earlier runs left in the process)
+	Ordinal     int    `json:"ordinal"`
+	OrigLogHash string `json:"orig_log_hash"`
 }
 
 // Sample is one explored case written out for the evidence file.
@@ -132,6 +136,9 @@ type ReplayFile struct {
 	LogHash string   `json:"log_hash"`
 	Trace   []string `json:"trace"`
 	Note    string   `json:"note,omitempty"`
+	// Mode "history": the run is replayed as the Ordinal-th run of its shard's sequence
+	Mode    string `json:"mode,omitempty"`
+	Ordinal int    `json:"ordinal,omitempty"`
 }
 
 var progress atomic.Int64
@@ -397,6 +404,20 @@ func Main(t *testing.T, cfg Config) {
 		return
 	}
 
+	// history replay: re-execute this shard's run sequence up to and including the recorded run
+	var hist *ReplayFile
+	if hp := os.Getenv("VERIF_REPLAY_HISTORY"); hp != "" {
+		b, err := os.ReadFile(hp)
+		if err == nil {
+			hist = &ReplayFile{}
+			err = json.Unmarshal(b, hist)
+		}
+		if err != nil {
+			d.errs = append(d.errs, "history replay file: "+err.Error())
+			return
+		}
+		res.Replay = &ReplayResult{WantSig: hist.Sig, WantHash: hist.LogHash}
+	}
 	budget := time.Duration(envInt("VERIF_BUDGET_S", 0)) * time.Second
 	distinct := map[uint64]struct{}{}
 	var selflog *os.File
@@ -447,6 +468,15 @@ func Main(t *testing.T, cfg Config) {
 			d.errs = append(d.errs, fmt.Sprintf("run seed %d: %s: %s", r.Seed, v.Sig, v.Msg))
 			return false
 		}
+		if hist != nil {
+			// history replay: the first violation of the re-executed run sequence is the answer
+			res.Replay = &ReplayResult{WantSig: hist.Sig, GotSig: v.Sig, WantHash: hist.LogHash, GotHash: fmt.Sprintf("%016x", r.LogHash()), Msg: v.Msg}
+			res.Replay.Reproduced = v.Sig == hist.Sig && r.Seed == hist.RunSeed && res.Runs == hist.Ordinal && res.Replay.GotHash == hist.LogHash
+			for _, l := range r.Log() {
+				fmt.Println(l)
+			}
+			return false
+		}
 		// minimise and confirm
 		orig := append([]Draw(nil), r.Tape.Rec...)
 		min, cands := d.minimise(r.Seed, orig, v.Sig)
@@ -454,7 +484,7 @@ func Main(t *testing.T, cfg Config) {
 		r2 := d.runOnce(r.Seed, NewReplayTape(min), true)
 		v1, v2 := r1.Violation(), r2.Violation()
 		rep := ViolationReport{Sig: v.Sig, Msg: v.Msg, RunSeed: r.Seed, RunIndex: idx, Enum: enum, Tape: min,
-			OrigDraws: len(orig), MinDraws: len(min), Candidates: cands}
+			OrigDraws: len(orig), MinDraws: len(min), Candidates: cands, Ordinal: res.Runs, OrigLogHash: fmt.Sprintf("%016x", r.LogHash())}
 		if v1 != nil && v2 != nil && v1.Sig == v.Sig && v2.Sig == v.Sig {
 			rep.Confirmed = r1.LogHash() == r2.LogHash()
 			rep.Msg = v1.Msg
@@ -482,6 +512,9 @@ func Main(t *testing.T, cfg Config) {
 	}
 
 	over := func() bool {
+		if hist != nil {
+			return res.Runs >= hist.Ordinal
+		}
 		if budget > 0 && time.Since(wall) > budget {
 			res.Budgeted = true
 			return true
